@@ -107,8 +107,35 @@ R5_EXTRA = {
 KIND = {"C01": "decoder", "C02": "decoder", "C03": "decoder", "C04": "decoder", "C09": "decoder", "C14": "decoder", "C17": "decoder",
         "C06": "cli", "C07": "cli", "C10": "cli", "C18": "cli", "C19": "cli", "C13": "cli", "C16": "lib",
         "C05": "lib", "C08": "lib", "C11": "lib", "C12": "lib", "C15": "lib", "C20": "lib"}
+AVOID6 = {
+ "C01": "expand_queue capacity check for a completely full tree; OFFSET_BITS literal 4 in the single-symbol offset path",
+ "C02": "distance-one shortcut at ring position 0; mirrored window tail with MAX_COPY_LENGTH 58",
+ "C03": "lzs length field 0 treated as end of input; lz5 eight-literal fast path at the ring end",
+ "C04": "pm2 copy code 19 treated as the run code; literal at history position 255 rejected",
+ "C05": "level-1 extended header minimum size <= 3; OS-9 decoder assigning extra_flags",
+ "C06": "prompt_user reading the answer with fgets into 4 bytes; lha_arch_symlink unlinking only when stat sees the path",
+ "C07": "large stdio buffer hiding write errors; test exit status from the last member only",
+ "C08": "name-or-path sanity check with MacBinary strlen(NULL); OS-9 area bytes read before the length test",
+ "C09": "expand_queue counting one element per entry; missing copy_count < 0 check in the LHark branch",
+ "C10": "mkdir of the w= directory before the dry-run check; O_TRUNC fallback open after EEXIST",
+ "C11": "parse_symlink ignoring the result of split_header_filename; split ignoring a separator at index 0",
+ "C12": "level-3 length read as 16 bits; level-1 skip size smaller than the extended headers accepted",
+ "C13": "prompt loop at EOF; lha_arch_fopen retry loop on EEXIST",
+ "C14": "16-bit chunk length in lha_crc16_buf; single-byte shortcut above the declared-length clamp",
+ "C15": "deferred list insertion before the placeholder is created; is_dangerous_symlink missing the last component",
+ "C16": "marker detection in a second pass of skip_sfx; range guard before fseek",
+ "C17": "int sign extension when assembling a 64-bit word; 1 MiB chunk loop re-reading buf[i]",
+ "C18": "plain printf on the Failure line; plain fprintf in file_exists",
+ "C19": "q clearing the verbose flag; singular 'file' for zero rows",
+ "C20": "free(fullpath) dropped in parse_symlink; early return skipping free(tmp_filename) in extract_file",
+}
+R6 = ("Prefer these kinds of slip: a single wrong entry, bound or case in a constant table or switch statement (code and position tables of the decoders, extended-header type dispatch, OS-type, month, permission and method strings, option letters); a changed order of two operations that usually commute (chmod/chown/utime, free/assign, flush/close, push/pop); a signedness or width change of one variable; an operator-precedence, <= vs <, && vs ||, or + vs - slip inside a rarely taken branch; and the less-used entry points and modes (the three directory policies of lha_reader_set_dir_policy, lha_reader_current_is_fake, lha_file_header_full_path, lha_decoder_monitor, src/filter.c, the 'e' spelling of extract, quiet levels, header levels 0 and 3, the -lhx-/-lk7-/-lzs-/-pm1- methods). ")
 extra = ""
-if len(sys.argv) > 3 and sys.argv[3] == "r5":
+if len(sys.argv) > 3 and sys.argv[3] == "r6":
+    extra = ("\n\nIMPORTANT: changes at the following sites/mechanisms have already been collected for this property; produce changes that hit DIFFERENT functions and mechanisms: "
+             + "; ".join(x for x in (AVOID.get(pid, ""), AVOID3.get(pid, ""), AVOID4.get(pid, ""), AVOID5.get(pid, ""), AVOID6.get(pid, "")) if x) + ". " + R6
+             + "Name your output directories " + pid + "-11 and " + pid + "-12.")
+elif len(sys.argv) > 3 and sys.argv[3] == "r5":
     extra = ("\n\nIMPORTANT: changes at the following sites/mechanisms have already been collected for this property; produce changes that hit DIFFERENT functions and mechanisms: "
              + "; ".join(x for x in (AVOID.get(pid, ""), AVOID3.get(pid, ""), AVOID4.get(pid, ""), AVOID5.get(pid, "")) if x) + ". " + R5_EXTRA[KIND[pid]]
              + " Name your output directories " + pid + "-9 and " + pid + "-10.")
